@@ -10,4 +10,5 @@ for p in "$@"; do
   VERIF_NO_SEARCH=${VERIF_NO_SEARCH:-} ./check "$p" quick 2>&1 | grep -E "VIOLATION|KNOWN|quick:" | cut -c1-300
 done
 rm -rf evidence && mv /tmp/evidence.keep evidence
+# the replays of a seeded run are scratch output (kept until the next seeded run, never committed)
 cd /repo && git checkout -- . && git status --short | head -3
